@@ -25,9 +25,10 @@ theorem parse_written (typ flags stream : Nat) (p : Bytes)
   cases h : Spec.body typ flags p <;> rfl
 
 
-/-- frame values within the ranges the setters document. PUSH_PROMISE is excluded (finding F14: the
-writer has no promised-id field). SETTINGS values of zero are in (finding F35, repaired: the setters mark
-a value as present and `Encode` writes what is present). -/
+/-- frame values within the ranges the setters document. PUSH_PROMISE is in with every promised id `SetStream`
+can be handed (finding F14, repaired: `Serialize` writes the promised id with the reserved bit clear, END_HEADERS
+and the padding). SETTINGS values of zero are in (finding F35, repaired: the setters mark a value as present and
+`Encode` writes what is present). -/
 def Buildable : WFrame → Prop
   | .data _ b => WF b
   | .headers _ _ prio raw => WF raw ∧ (∀ d w, prio = some (d, w) → d < 2 ^ 31 ∧ w < 256)
@@ -35,7 +36,7 @@ def Buildable : WFrame → Prop
   | .rstStream c => c < 2 ^ 32
   | .settings ack ts _ ms ws fs hs =>
     ack = true ∨ (ts < 2 ^ 32 ∧ ms < 2 ^ 32 ∧ ws < 2 ^ 31 ∧ 2 ^ 14 ≤ fs ∧ fs < 2 ^ 24 ∧ hs < 2 ^ 32)
-  | .pushPromise _ => False
+  | .pushPromise pr _ h => pr < 2 ^ 32 ∧ WF h
   | .ping _ d => d.length = 8
   | .goAway last code _ => last < 2 ^ 31 ∧ code < 2 ^ 32
   | .windowUpdate inc => inc < 2 ^ 31
@@ -84,6 +85,19 @@ theorem body_headers (es eh : Bool) (prio : Option (Nat × Nat)) (raw : Bytes) (
     · cases es <;> cases eh <;>
         simp [serialize, addFlag, hasFlag, Gen.c_FlagEndStream, Gen.c_FlagEndHeaders, Gen.c_FlagPriority, Gen.c_FlagPadded,
           Gen.c_FrameHeaders, Spec.body, Spec.bitAt, hpad, unpad_addPadding, toBe32, u31_toBe32 d hd]
+
+theorem body_pushPromise (pr : Nat) (eh : Bool) (h : Bytes) (pad : Nat) (hp : PadOk pad) :
+    Spec.body Gen.c_FramePushPromise (serialize 0 pad (.pushPromise pr eh h)).1 (serialize 0 pad (.pushPromise pr eh h)).2
+      = .ok (.pushPromise (pr % 2 ^ 31) eh h) := by
+  have hd : pr % 2 ^ 31 < 2 ^ 31 := Nat.mod_lt _ (by decide)
+  have hpad : pad = 0 ∨ pad ≠ 0 := by omega
+  rcases hpad with rfl | hpad
+  · cases eh <;>
+      simp [serialize, addFlag, hasFlag, Gen.c_FlagEndHeaders, Gen.c_FramePushPromise, Spec.body, Spec.bitAt, Spec.unpad,
+        toBe32, Spec.u31, Spec.u32] <;> omega
+  · cases eh <;>
+      simp [serialize, addFlag, hasFlag, Gen.c_FlagEndHeaders, Gen.c_FlagPadded, Gen.c_FramePushPromise, Spec.body, Spec.bitAt,
+        hpad, unpad_addPadding, toBe32, Spec.u31, Spec.u32] <;> omega
 
 theorem body_priority (dep w pad : Nat) (hd : dep < 2 ^ 31) :
     Spec.body Gen.c_FramePriority (serialize 0 pad (.priority dep w)).1 (serialize 0 pad (.priority dep w)).2
@@ -165,6 +179,8 @@ theorem flags_lt (pad : Nat) (w : WFrame) : (serialize 0 pad w).1 < 256 := by
   | settings ack => cases ack <;> simp [serialize, addFlag, hasFlag, Gen.c_FlagAck]
   | ping ack => cases ack <;> simp [serialize, addFlag, hasFlag, Gen.c_FlagAck]
   | continuation eh => cases eh <;> simp [serialize, addFlag, hasFlag, Gen.c_FlagEndHeaders]
+  | pushPromise pr eh h =>
+    rcases hpad with rfl | hpad <;> cases eh <;> simp [serialize, addFlag, hasFlag, Gen.c_FlagEndHeaders, Gen.c_FlagPadded, *]
   | _ => simp [serialize]
 
 /-- the payload grammar reads what `Serialize` wrote as the body the caller described -/
@@ -178,7 +194,7 @@ theorem body_written (pad : Nat) (w : WFrame) (hB : Buildable w) (hp : PadOk pad
   | settings ack ts push ms ws fs hs =>
     obtain ⟨sv, h1, h2⟩ := body_settings ack push ts ms ws fs hs pad hB
     exact ⟨_, h1, h2⟩
-  | pushPromise h => exact absurd hB (by simp [Buildable])
+  | pushPromise pr eh h => exact ⟨_, body_pushPromise pr eh h pad hp, by simp [sameBody, WFrame.want]⟩
   | ping ack d => exact ⟨_, body_ping ack d pad hB, by simp [sameBody, WFrame.want]⟩
   | goAway last code dbg => exact ⟨_, body_goaway last code dbg pad hB.1 hB.2, by simp [sameBody, WFrame.want]⟩
   | windowUpdate inc => exact ⟨_, body_wu inc pad hB, by simp [sameBody, WFrame.want]⟩
@@ -222,7 +238,9 @@ theorem flagsOk_written (pad : Nat) (w : WFrame) : Spec.flagsOk w.typ (serialize
   | continuation eh => cases eh <;> simp [serialize, addFlag, hasFlag, Gen.c_FlagEndHeaders, WFrame.typ, Gen.c_FrameContinuation] <;> decide
   | priority => simp [serialize, WFrame.typ, Gen.c_FramePriority]; decide
   | rstStream => simp [serialize, WFrame.typ, Gen.c_FrameResetStream]; decide
-  | pushPromise => simp [serialize, WFrame.typ, Gen.c_FramePushPromise]; decide
+  | pushPromise pr eh h =>
+    rcases hpad with rfl | hpad <;> cases eh <;>
+      simp [serialize, addFlag, hasFlag, Gen.c_FlagEndHeaders, Gen.c_FlagPadded, WFrame.typ, Gen.c_FramePushPromise, *] <;> decide
   | goAway => simp [serialize, WFrame.typ, Gen.c_FrameGoAway]; decide
   | windowUpdate => simp [serialize, WFrame.typ, Gen.c_FrameWindowUpdate]; decide
 
@@ -244,7 +262,12 @@ theorem padZero_written (pad : Nat) (w : WFrame) (hB : Buildable w) :
     · cases es <;> cases eh <;> rcases prio with _ | ⟨d, w⟩ <;>
         simp [serialize, addFlag, hasFlag, Gen.c_FlagEndStream, Gen.c_FlagEndHeaders, Gen.c_FlagPriority, Gen.c_FlagPadded,
           WFrame.typ, Gen.c_FrameHeaders, hpad, Spec.bitAt, padZero_addPadding]
-  | pushPromise h => exact absurd hB (by simp [Buildable])
+  | pushPromise pr eh h =>
+    rcases hpad with rfl | hpad
+    · cases eh <;> simp [serialize, addFlag, hasFlag, Gen.c_FlagEndHeaders, Spec.bitAt, Spec.padZero]
+    · cases eh <;>
+        simp [serialize, addFlag, hasFlag, Gen.c_FlagEndHeaders, Gen.c_FlagPadded, WFrame.typ, Gen.c_FramePushPromise, hpad,
+          Spec.bitAt, padZero_addPadding]
   | settings ack => simp [WFrame.typ, Gen.c_FrameSettings, Spec.padZero]
   | ping ack => simp [WFrame.typ, Gen.c_FramePing, Spec.padZero]
   | continuation eh => simp [WFrame.typ, Gen.c_FrameContinuation, Spec.padZero]
@@ -256,7 +279,16 @@ theorem padZero_written (pad : Nat) (w : WFrame) (hB : Buildable w) :
 theorem reservedOk_written (pad : Nat) (w : WFrame) (hB : Buildable w) :
     Spec.reservedOk w.typ (serialize 0 pad w).1 (serialize 0 pad w).2 = true := by
   cases w with
-  | pushPromise h => exact absurd hB (by simp [Buildable])
+  | pushPromise pr eh h =>
+    have hd : pr % 2 ^ 31 < 2 ^ 31 := Nat.mod_lt _ (by decide)
+    have hpad : pad = 0 ∨ pad ≠ 0 := by omega
+    rcases hpad with rfl | hpad
+    · cases eh <;>
+        simp [serialize, addFlag, hasFlag, Gen.c_FlagEndHeaders, WFrame.typ, Gen.c_FramePushPromise, Spec.reservedOk, Spec.bitAt,
+          toBe32] <;> omega
+    · cases eh <;>
+        simp [serialize, addFlag, hasFlag, Gen.c_FlagEndHeaders, Gen.c_FlagPadded, WFrame.typ, Gen.c_FramePushPromise, hpad,
+          Spec.reservedOk, Spec.bitAt, addPadding, toBe32] <;> omega
   | goAway last code dbg =>
     have := hB.1
     simp [serialize, WFrame.typ, Gen.c_FrameGoAway, Spec.reservedOk, toBe32]; omega
@@ -291,20 +323,16 @@ def InRange : WFrame → Prop
   | .rstStream c => c < 2 ^ 32
   | .settings ack ts _ ms ws fs hs =>
     ack = true ∨ (ts < 2 ^ 32 ∧ ms < 2 ^ 32 ∧ ws < 2 ^ 31 ∧ 2 ^ 14 ≤ fs ∧ fs < 2 ^ 24 ∧ hs < 2 ^ 32)
-  | .pushPromise h => WF h
+  | .pushPromise pr _ h => pr < 2 ^ 32 ∧ WF h
   | .ping _ d => d.length = 8
   | .goAway last code _ => last < 2 ^ 31 ∧ code < 2 ^ 32
   | .windowUpdate inc => inc < 2 ^ 31
   | .continuation _ _ => True
 
-/-- known finding F14: the PUSH_PROMISE writer -/
-def IsPushPromise : WFrame → Prop
-  | .pushPromise _ => True
-  | _ => False
-
-theorem buildable_of (w : WFrame) (hr : InRange w) (h14 : ¬ IsPushPromise w) : Buildable w := by
+/-- no finding is left on the write side: everything in range can be built through the public setters -/
+theorem buildable_of (w : WFrame) (hr : InRange w) : Buildable w := by
   cases w with
-  | pushPromise h => exact absurd trivial h14
+  | pushPromise pr eh h => exact hr
   | settings ack ts push ms ws fs hs => exact hr
   | data => exact hr
   | headers => exact hr
